@@ -23,6 +23,8 @@ TUS = {
     "htmc": dict(path="esutil/htm/htmc.cc", cxx=True,
                  filt=["HTMC", "Matcher", "gcirc", "sphdist", "eq2xyz", "PAIR_INFO"],
                  inc=["esutil/include", "esutil/htm", "esutil/htm/htm_src"]),
+    "spatialconvex": dict(path="esutil/htm/htm_src/SpatialConvex.cpp", cxx=True, filt=["SpatialConvex"],
+                          inc=["esutil/htm/htm_src", "esutil/htm"]),
     "cosmolib": dict(path="esutil/cosmology/cosmolib.c", cxx=False, filt="", inc=["esutil/cosmology"],
                      own_only=True),
     "cosmolib_pywrap": dict(path="esutil/cosmology/cosmolib_pywrap.c", cxx=False, filt="PyCosmo",
